@@ -10,12 +10,13 @@ set_option linter.unusedSectionVars false
 
 variable {K V W : Type} [Add K] [Sub K] [Mul K] [Div K] [Neg K] [OfNat K 0] [OfNat K 1] [OfNat K 2]
 variable (φ : V → W) (ov : Ops K V) (ow : Ops K W) (H : OpsHom φ ov ow)
+  (sdv : V → K → V) (sdw : W → K → W) (Hd : ∀ v a, φ (sdv v a) = sdw (φ v) a)
 
 def mapArn (s : ArnSt K V) : ArnSt K W := ⟨s.vs.map φ, s.cols, s.stop, s.rank⟩
 
-include H in
+include H Hd in
 theorem arnStep_hom (sqrt : K → K) (small : K → Bool) (m : Nat) (d : V) (s : ArnSt K V) :
-    mapArn φ (arnStep ov sqrt small m d s) = arnStep ow sqrt small m (φ d) (mapArn φ s) := by
+    mapArn φ (arnStep ov sdv sqrt small m d s) = arnStep ow sdw sqrt small m (φ d) (mapArn φ s) := by
   obtain ⟨h1, h2⟩ := orthO_hom φ ov ow H s.vs (ov.A (s.vs.getLast?.getD d))
   rw [H.A, ← getLast_map φ s.vs d] at h1 h2
   unfold arnStep
@@ -26,20 +27,20 @@ theorem arnStep_hom (sqrt : K → K) (small : K → Bool) (m : Nat) (d : V) (s :
       (orthO ov s.vs (ov.A (s.vs.getLast?.getD d))).1))
     · simp only [Bool.false_eq_true, if_false]
       by_cases hj : s.cols.length + 1 < m
-      · simp only [hj, if_true, List.map_append, List.map_cons, List.map_nil, H.smul]
+      · simp only [hj, if_true, List.map_append, List.map_cons, List.map_nil, Hd]
       · simp only [hj, if_false]
     · simp only [if_true]
   · simp only [mapArn, hs, if_true]
 
-include H in
+include H Hd in
 theorem dgCore_hom (sqrt absK : K → K) (small isZero : K → Bool) (n m : Nat) (b : V) (normb : K) :
-    φ (dgCore ov sqrt absK small isZero n m b normb) = dgCore ow sqrt absK small isZero n m (φ b) normb := by
+    φ (dgCore ov sdv sqrt absK small isZero n m b normb) = dgCore ow sdw sqrt absK small isZero n m (φ b) normb := by
   unfold dgCore
-  have hit := iter_hom (arnStep ov sqrt small m b) (arnStep ow sqrt small m (φ b)) (mapArn φ)
-    (arnStep_hom φ ov ow H sqrt small m b) m ⟨[ov.smul (1 / normb) b], [], false, m⟩
-  have h0 : mapArn φ (⟨[ov.smul (1 / normb) b], [], false, m⟩ : ArnSt K V) =
-      ⟨[ow.smul (1 / normb) (φ b)], [], false, m⟩ := by
-    simp only [mapArn, List.map_cons, List.map_nil, H.smul]
+  have hit := iter_hom (arnStep ov sdv sqrt small m b) (arnStep ow sdw sqrt small m (φ b)) (mapArn φ)
+    (arnStep_hom φ ov ow H sdv sdw Hd sqrt small m b) m ⟨[sdv b normb], [], false, m⟩
+  have h0 : mapArn φ (⟨[sdv b normb], [], false, m⟩ : ArnSt K V) =
+      ⟨[sdw (φ b) normb], [], false, m⟩ := by
+    simp only [mapArn, List.map_cons, List.map_nil, Hd]
   rw [h0] at hit
   simp only
   rw [combO_hom φ ov ow H, H.smul, ← hit]
